@@ -192,3 +192,88 @@ static void run_c10_incl(void)
     wl_rt_stop(rt);
 }
 SIM_WORKLOAD("C10", "reader-inclusion", run_c10_incl, 4)
+
+/* ---- scenario "many-read-holds": one reader takes H read holds (the lock counts them; nothing
+ * says how many there may be), a writer then asks for the lock and must stay out until the last
+ * hold is returned, and afterwards the lock is free.  H is mostly small; now and then it sits
+ * on a power of two (2^8, 2^16) or just around it. ---- */
+static struct {
+    long holds, target;
+    volatile int all_taken, writer_in, writer_done;
+} MH;
+static void mh_reader(wl_actor *a)
+{
+    for (long i = 0; i < MH.target; i++) {
+        ABT_OK(ABT_rwlock_rdlock(S.rw));
+        MH.holds++;
+        if ((i & 255) == 0)
+            sim_progress();
+    }
+    MH.all_taken = 1;
+    sim_progress();
+    /* let the writer arrive (it may also arrive later: both orders are legal) */
+    for (int i = 0; i < (a->args[0] & 7); i++)
+        wl_actor_pause(a, 1);
+    while (MH.holds > 0) {
+        SIM_CHECK(!MH.writer_in, "rwlock:writer-not-exclusive", "the writer is inside although the reader still has %ld of its %ld read holds", MH.holds, MH.target);
+        MH.holds--; /* (before the call: the writer may enter as soon as the last unlock takes effect) */
+        ABT_OK(ABT_rwlock_unlock(S.rw));
+        if ((MH.holds & 255) == 0)
+            sim_progress();
+    }
+    sim_progress();
+}
+static void mh_writer(wl_actor *a)
+{
+    while (!MH.all_taken)
+        wl_actor_pause(a, 1);
+    ABT_OK(ABT_rwlock_wrlock(S.rw));
+    SIM_CHECK(MH.holds == 0, "rwlock:writer-not-exclusive", "the writer got the lock while the reader has %ld of its %ld read holds", MH.holds, MH.target);
+    MH.writer_in = 1;
+    sim_progress();
+    wl_actor_pause(a, 1);
+    SIM_CHECK(MH.holds == 0, "rwlock:writer-not-exclusive", "lock state changed under the writer");
+    MH.writer_in = 0;
+    ABT_OK(ABT_rwlock_unlock(S.rw));
+    MH.writer_done = 1;
+    sim_progress();
+}
+static void run_c10_holds(void)
+{
+    memset(&S, 0, sizeof S);
+    memset(&MH, 0, sizeof MH);
+    sim_set_diag_cb(diag);
+    wl_rt *rt = &S.rt;
+    wl_rt_start(rt, WL_RT_NO_TOPO2);
+    ABT_OK(ABT_rwlock_create(&S.rw));
+    static const long edges[] = { 255, 256, 257, 65535, 65536, 65537, 70000 };
+    /* (a deep run costs a thousand ordinary ones: rare, rarer still where every plain access is a
+     * scheduling point) */
+    int deep = plan_n(sim_tier() ? 150 : !strcmp(sim_variant(), "VP") ? 6000 : 700) == 0;
+    MH.target = deep ? edges[plan_n(7)] : plan_range(1, 40);
+    S.nA = 2;
+    sim_note("C10 many-read-holds H=%ld: ", MH.target);
+    for (int i = 0; i < 2; i++) {
+        wl_actor *a = &S.A[i];
+        a->id = i;
+        a->kind = plan_n(3) == 0 ? AK_EXT : AK_ULT;
+        a->pool = (int)plan_n((uint32_t)rt->npools);
+        a->body = i == 0 ? mh_reader : mh_writer;
+        a->args[0] = (int)plan_n(8);
+        sim_note("%s@%d ", wl_actor_kind_names[a->kind], a->pool);
+    }
+    wl_actors_spawn(rt, S.A, 2);
+    wl_actors_join(rt, S.A, 2);
+    SIM_CHECK(MH.writer_done, "rwlock:model", "the writer did not finish");
+    /* the lock is free again: a write hold and a read hold can be taken at once */
+    ABT_OK(ABT_rwlock_wrlock(S.rw));
+    ABT_OK(ABT_rwlock_unlock(S.rw));
+    ABT_OK(ABT_rwlock_rdlock(S.rw));
+    ABT_OK(ABT_rwlock_unlock(S.rw));
+    if (MH.target >= 65536)
+        sim_count("c10.runs_with_2^16_read_holds", 1);
+    sim_count("c10.read_holds_of_one_caller", (uint64_t)MH.target);
+    ABT_OK(ABT_rwlock_free(&S.rw));
+    wl_rt_stop(rt);
+}
+SIM_WORKLOAD("C10", "many-read-holds", run_c10_holds, 1)
